@@ -525,6 +525,12 @@ impl SideMetadataSpec {
                     let old_val = meta_addr.load::<u8>();
                     let new_val = (old_val & !mask) | (metadata.to_u8().unwrap() << lshift);
 
+                    // (the non-atomic read-modify-write of a byte shared with neighbouring fields)
+                    #[cfg(mmtk_verif)]
+                    crate::util::verif::rt::yield_point_at(
+                        crate::util::verif::rt::site::RACE_RMW,
+                        meta_addr.as_usize(),
+                    );
                     meta_addr.store::<u8>(new_val);
                 } else {
                     meta_addr.store::<T>(metadata);
@@ -550,7 +556,10 @@ impl SideMetadataSpec {
                     let lshift = meta_byte_lshift(self, data_addr);
                     let mask = meta_byte_mask(self) << lshift;
                     #[cfg(mmtk_verif)]
-                    crate::util::verif::rt::yield_point(crate::util::verif::rt::site::RAW_LOAD);
+                    crate::util::verif::rt::yield_point_at(
+                        crate::util::verif::rt::site::RAW_LOAD,
+                        meta_addr.as_usize(),
+                    );
                     let byte_val = unsafe { meta_addr.atomic_load::<AtomicU8>(order) };
                     FromPrimitive::from_u8((byte_val & mask) >> lshift).unwrap()
                 } else {
@@ -723,7 +732,10 @@ impl SideMetadataSpec {
                     let mask = meta_byte_mask(self) << lshift;
 
                     #[cfg(mmtk_verif)]
-                    crate::util::verif::rt::yield_point(crate::util::verif::rt::site::RAW_LOAD);
+                    crate::util::verif::rt::yield_point_at(
+                        crate::util::verif::rt::site::RAW_LOAD,
+                        meta_addr.as_usize(),
+                    );
                     let real_old_byte = unsafe { meta_addr.atomic_load::<AtomicU8>(success_order) };
                     let expected_old_byte =
                         (real_old_byte & !mask) | ((old_metadata.to_u8().unwrap()) << lshift);
@@ -731,7 +743,10 @@ impl SideMetadataSpec {
                         (expected_old_byte & !mask) | ((new_metadata.to_u8().unwrap()) << lshift);
 
                     #[cfg(mmtk_verif)]
-                    crate::util::verif::rt::yield_point(crate::util::verif::rt::site::RAW_CAS);
+                    crate::util::verif::rt::yield_point_at(
+                        crate::util::verif::rt::site::RAW_CAS,
+                        meta_addr.as_usize(),
+                    );
                     unsafe {
                         meta_addr.compare_exchange::<AtomicU8>(
                             expected_old_byte,
